@@ -57,13 +57,20 @@ func srcProfile(g string, i int) *profile.Profile {
 	f := &profile.Function{ID: 1, Name: fmt.Sprintf("%s_fn%d", g, i), SystemName: "x", Filename: "x.c"}
 	m := &profile.Mapping{ID: 1, Start: 0x1000, Limit: 0x2000, File: "bin", BuildID: "abc123", HasFunctions: true}
 	l := &profile.Location{ID: 1, Mapping: m, Address: 0x1000 + uint64(i)*8 + map[string]uint64{"src": 0, "base": 0x800}[g], Line: []profile.Line{{Function: f, Line: 1}}}
-	return &profile.Profile{
+	p := &profile.Profile{
 		SampleType: []*profile.ValueType{{Type: "samples", Unit: "count"}},
 		PeriodType: &profile.ValueType{Type: "cpu", Unit: "ns"}, Period: 1,
 		Sample:  []*profile.Sample{{Location: []*profile.Location{l}, Value: []int64{int64(i)}}},
 		Mapping: []*profile.Mapping{m}, Location: []*profile.Location{l}, Function: []*profile.Function{f},
 		Comments: []string{fmt.Sprintf("%s#%d", g, i)},
 	}
+	if i >= 128 {
+		// the sources beyond the first chunk of 128 carry a sample type the others lack: whatever is merged, however
+		// it was grouped on the way, is reduced to the types all sources have
+		p.SampleType = append(p.SampleType, &profile.ValueType{Type: "extra", Unit: "count"})
+		p.Sample[0].Value = append(p.Sample[0].Value, 7)
+	}
+	return p
 }
 
 type failKind int
